@@ -158,10 +158,10 @@ theorem singleton_is_not_value :
       [.value (.bool true), .wildcard] 1 = .known (.str "a") ∧
     firstMatch liveTable [.singleton (.bool true), .wildcard] (.int 1) = 1 := by
   refine ⟨?_, ?_, ?_⟩
-  · simp [matchBody, caseKs, Pat.negKs, Pat.ac, Cond.k, AC.mkAnd, spliceAnd, AC.invert, K.invert, AC.apply,
+  · simp [matchBody, caseKs, Pat.negKs, Pat.ac, Cond.k, AC.mkAnd, spliceAnd, absorbAnd, hasNull, AC.isNull, AC.invert, K.invert, AC.apply,
       constrainKs, flatten1, applySeq, applyK, applyPred, unann, Obj.same, Obj.tag, unite, dedup, dictMem,
       Ty.hashEq, Ty.beq, Obj.hashable, Obj.pyEq]
-  · simp [matchBody, caseKs, Pat.negKs, Pat.ac, Cond.k, AC.mkAnd, spliceAnd, AC.invert, K.invert, AC.apply,
+  · simp [matchBody, caseKs, Pat.negKs, Pat.ac, Cond.k, AC.mkAnd, spliceAnd, absorbAnd, hasNull, AC.isNull, AC.invert, K.invert, AC.apply,
       constrainKs, flatten1, applySeq, applyK, applyPred, unann, Obj.pyEq, unite, dedup, dictMem]
   · simp [firstMatch, Pat.matches, Obj.same, Obj.tag]
 
@@ -232,6 +232,97 @@ theorem reversedLen_absent (T : BoolTable) (h : T.lenRevMirrored = true) (c : Co
   unfold dCond
   cases c <;> simp only [h, Bool.not_true, Bool.false_and, Bool.false_eq_true, if_false]
   split <;> rfl
+
+/-! ## Every condition of the grammar: `and` / `or` / `not` over atoms on the narrowed variable, atoms
+on other variables and opaque operands -/
+
+/-- **The ideal constraint algebra is sound for every condition of the grammar**, under every
+valuation of the opaque bits and every object of the other variable (`ρ`): if every atom on the
+narrowed variable, taken in the polarity it has for the object (`holds`), is a constraint that keeps
+the object (what `narrow_keeps_partial` establishes per atom), then whenever the whole condition
+evaluates to `pol` in state `ρ`, the object belongs to the type inferred in that branch. Trees of any
+depth; `NULL` (opaque operand) and constraints on other variables are the unit of AND and absorbing
+for OR; the `NULL`-absorption rules of `AndConstraint.make` / `OrConstraint.make` are included. -/
+theorem narrowBIdeal_keeps (tbl : ClassTable) (T : BoolTable) (ρ : Env) (V : Ty) (b : BCond) (pol : Bool)
+    (o : Obj) (hleaf : ∀ c ∈ b.leaves, KeepsK tbl T (c.kAt T (holds tbl c o)) o)
+    (hm : mem tbl o V = true) (hh : holdsB tbl ρ b o = pol) :
+    mem tbl o (narrowBIdeal tbl T V b pol) = true :=
+  narrowBIdeal_keeps_core hleaf hm hh
+
+/-- **The constraint the checker extracts from the value of the condition** (`narrowB`: with the
+member values of `and` / `or` expressions read back by `extract_constraints`) keeps the object in the
+branch taken for every condition of the grammar and every valuation — outside the exception class
+`nullAbsorbLeak` (decidable: the extracted constraint narrows `V` like the ideal one in both
+branches). -/
+theorem narrowB_keeps_partial (tbl : ClassTable) (T : BoolTable) (ρ : Env) (V : Ty) (b : BCond)
+    (pol : Bool) (o : Obj) (hleaf : ∀ c ∈ b.leaves, KeepsK tbl T (c.kAt T (holds tbl c o)) o)
+    (hD : nullAbsorbLeak tbl T V b = [])
+    (hm : mem tbl o V = true) (hh : holdsB tbl ρ b o = pol) :
+    mem tbl o (narrowB tbl T V b pol) = true :=
+  narrowB_keeps_core hleaf hD hm hh
+
+/-- **`A or <operand without constraint>` narrows nothing**: a disjunction one of whose operands is
+opaque activates no constraint at all on the variable, whatever the other operands are — the positive
+branch keeps the declared type. -/
+theorem or_with_opaque_narrows_nothing (T : BoolTable) (bs : List BCond) (i : Nat)
+    (h : BCond.opaque i ∈ bs) : ((BCond.or bs).acIdeal T).apply = [] := by
+  simp only [BCond.acIdeal, acL_eq_map]
+  exact mkOr_null_apply _ (List.mem_map.mpr ⟨_, h, rfl⟩)
+
+/-- … so `x: int | None`, `if x is None or flag():` leaves `x: int | None` in the body (the object
+`5` enters it when `flag()` is true), while the else branch is `int` — for the extracted constraint
+too, and the same with an atom on another variable instead of `flag()`. -/
+theorem or_opaque_example :
+    narrowB liveTable liveBool (.union [.typed C.int, .known .none])
+      (.or [.leaf (.is .none), .opaque 0]) true = .union [.typed C.int, .known .none] ∧
+    holdsB liveTable { bits := [true] } (.or [.leaf (.is .none), .opaque 0]) (.int 5) = true ∧
+    narrowB liveTable liveBool (.union [.typed C.int, .known .none])
+      (.or [.leaf (.is .none), .opaque 0]) false = .typed C.int ∧
+    narrowB liveTable liveBool (.union [.typed C.int, .known .none])
+      (.or [.leaf (.is .none), .other .truthy]) true = .union [.typed C.int, .known .none] := by
+  have h1 : liveTable.nominalK false C.int C.none = false := by decide +kernel
+  have h2 : liveTable.issub C.none C.int = false := by decide +kernel
+  refine ⟨?_, by simp [holdsB, holdsAny, holds, Obj.same, Obj.tag], ?_, ?_⟩
+  · simp [narrowB, constrain, BCond.ac, BCond.cv, BCond.flatL, CVal.ext, CVal.flat, AC.isNull, AC.mkOr, spliceOr,
+      absorbOr, dedupNull, hasNull, AC.apply, AC.groups, constrainKs, flatten1, applySeq, unite, dedup, dictMem, Ty.hashEq,
+      Ty.beq, Obj.hashable]
+  · simp [narrowB, constrain, BCond.ac, BCond.cv, BCond.flatL, CVal.ext, CVal.flat, AC.isNull, AC.mkOr, spliceOr,
+      absorbOr, dedupNull, hasNull, AC.invert, AC.invertL, AC.apply, AC.applyL, Cond.k, K.invert, constrainKs, flatten1,
+      applySeq, applyK, applyPred, unann, Obj.same, Obj.tag, Obj.pyEq, unite, dedup, dictMem]
+  · simp [narrowB, constrain, BCond.ac, BCond.cv, BCond.flatL, CVal.ext, CVal.flat, AC.isNull, AC.mkOr, spliceOr,
+      absorbOr, dedupNull, hasNull, AC.apply, AC.groups, constrainKs, flatten1, applySeq, unite, dedup, dictMem, Ty.hashEq,
+      Ty.beq, Obj.hashable]
+
+/-- class `nullAbsorbLeak`: `x: int | None`, `if not (p() and (p() or x is None)):` — for `p()` false
+the body runs with `x = None`, but the body is inferred `int`: the conjunction collapses to `NULL`
+and `extract_constraints` reads `x is None` back from the member values as `OR(NULL, x is None)`,
+whose inverse asserts `x is not None`. The ideal algebra narrows nothing there. -/
+theorem nullAbsorbLeak_witness :
+    let b : BCond := .not (.and [.opaque 0, .or [.opaque 0, .leaf (.is .none)]])
+    let V : Ty := .union [.typed C.int, .known .none]
+    mem liveTable .none V = true ∧
+    holdsB liveTable { bits := [false] } b .none = true ∧
+    narrowB liveTable liveBool V b true = .typed C.int ∧
+    narrowBIdeal liveTable liveBool V b true = V ∧
+    nullAbsorbLeak liveTable liveBool V b = ["nullAbsorbLeak"] := by
+  have h1 : liveTable.nominalK false C.int C.none = false := by decide +kernel
+  have h2 : liveTable.issub C.none C.int = false := by decide +kernel
+  have hn : narrowB liveTable liveBool (.union [.typed C.int, .known .none])
+      (.not (.and [.opaque 0, .or [.opaque 0, .leaf (.is .none)]])) true = .typed C.int := by
+    simp [narrowB, constrain, BCond.ac, BCond.cv, BCond.flatL, BCond.extL, CVal.ext, CVal.flat, AC.isNull, AC.mkOr,
+      AC.mkAnd, spliceOr, spliceAnd, absorbOr, absorbAnd, dedupNull, hasNull, AC.invert, AC.invertL, AC.apply, AC.applyL,
+      Cond.k, K.invert, constrainKs, flatten1, applySeq, applyK, applyPred, unann, Obj.same, Obj.tag, Obj.pyEq, unite,
+      dedup, dictMem]
+  have hi : narrowBIdeal liveTable liveBool (.union [.typed C.int, .known .none])
+      (.not (.and [.opaque 0, .or [.opaque 0, .leaf (.is .none)]])) true
+        = .union [.typed C.int, .known .none] := by
+    simp [narrowBIdeal, constrain, BCond.acIdeal, BCond.acIdealL, AC.isNull, AC.mkOr, AC.mkAnd, spliceOr, spliceAnd,
+      absorbOr, absorbAnd, dedupNull, hasNull, AC.invert, AC.invertL, AC.apply, AC.applyL, AC.groups, constrainKs, flatten1,
+      applySeq, unite, dedup, dictMem, Ty.hashEq, Ty.beq, Obj.hashable]
+  refine ⟨by simp [mem, memAny, Obj.same, Obj.tag, Obj.pyEq], ?_, hn, hi, ?_⟩
+  · simp [holdsB, holdsAll, holdsAny]
+  · simp only [nullAbsorbLeak, hn, hi]
+    simp [Ty.beq, Ty.beqList, Ty.subsetBy, Ty.memBy]
 
 /-! ## Constraint algebra -/
 
